@@ -164,12 +164,27 @@ let predict (c : string) (obs : string) : string * string * bool =
         let line rs = String.concat " " (List.map (fun r -> render_outcome respond r.r_code r.r_out) rs) in
         let m = json_model shortest_dec grpc_code respond (nat_of_int (int_of_string ninst)) timeout es in
         let sp = json_spec grpc_code respond timeout es in
-        let want = List.map (fun r -> render_outcome respond r.r_code r.r_out) sp in
+        let item r = render_outcome respond r.r_code r.r_out in
+        let want = List.map item sp and modl = List.map item m in
         let ok = (String.concat " " want = obs) in
         let why = if ok then "" else begin
-          let d = first_diff want items in
-          (* integers beyond 2^53: the code-shaped model (float64 round trip) explains the observation *)
-          if has_big es && line m = obs then "json:message-int64-precision(float64-round-trip)" else "json:" ^ d
+          if List.length items <> List.length want then "json:" ^ first_diff want items
+          else begin
+            (* per entry: a difference explained by the float64 round trip of an integer beyond 2^53
+               (the code-shaped model agrees with the observation) belongs to that family; any other
+               difference is reported first *)
+            let rec go i es w mo ob other big =
+              match es, w, mo, ob with
+              | e :: es', x :: w', y :: mo', o :: ob' ->
+                  if x = o then go (i + 1) es' w' mo' ob' other big
+                  else if y = o && not (fields_small e.e_payload) then go (i + 1) es' w' mo' ob' other true
+                  else if other = "" then go (i + 1) es' w' mo' ob' (Printf.sprintf "%s@%d" (diff_component x o) i) big
+                  else go (i + 1) es' w' mo' ob' other big
+              | _ -> (other, big) in
+            let (other, big) = go 0 es want modl items "" false in
+            if other <> "" then "json:" ^ other
+            else if big then "json:message-int64-precision(float64-round-trip)" else "json:?"
+          end
         end in
         (line m, verdict ok why, List.length es > 1 || es <> [] && (List.hd es).e_meta <> [])
       end else begin
@@ -184,12 +199,15 @@ let predict (c : string) (obs : string) : string * string * bool =
             let m = json_model shortest_dec grpc_code respond (nat_of_int (int_of_string ninst)) timeout es in
             let sp = json_spec grpc_code respond timeout es in
             let ok = (line sp = obs) in
+            (* the specification with the known float64 family factored out: entries carrying an
+               integer beyond 2^53 take the code-shaped model's result *)
+            let hybrid = List.map2 (fun e (a, b) -> if fields_small e.e_payload then a else b) es (List.combine sp m) in
             let why =
               if ok then ""
-              else if has_big es && line m = obs then "json:message-int64-precision(float64-round-trip)"
+              else if line hybrid = obs then "json:message-int64-precision(float64-round-trip)"
               else if res <> "ok" then "json-engine:run-" ^ res
               else begin
-                match split_blank (line sp) with
+                match split_blank (line hybrid) with
                 | [_; ws; wc] -> if ws <> samples then "json-engine:samples" else if wc <> callstr then "json-engine:calls" else "json-engine"
                 | _ -> "json-engine"
               end in
